@@ -45,7 +45,7 @@ class EmitHooks(LibHooks):
     pass
 
 
-def entry_state(C, ctxkind, next_state, pstate, in_array, cbname):
+def entry_state(C, ctxkind, next_state, pstate, in_array, cbname, bool_byte=None):
     """abstract state in which a token callback is invoked"""
     lay = C.lay
     st = C.I.new_state()
@@ -87,6 +87,11 @@ def entry_state(C, ctxkind, next_state, pstate, in_array, cbname):
     st.store.assume_ge0(Aff.sym(bs).sub(Aff.sym(vo)).sub(Aff.sym(vl)))
     cell(S['current_value'][0] + lay.bbuf['bsize'][0], P, Int(P * 8, Aff.sym(vl)))
     cell(S['current_value'][0] + lay.bbuf['bptr'][0], P, Ptr('BUF', Aff.sym(vo)))
+    if bool_byte is not None:
+        # a boolean value: the first byte of the value union is a known constant
+        o_ = Aff(S['current_value'][0])
+        st.wcells('STATE').pop((o_.key(), P), None)
+        st.wcells('STATE')[(o_.key(), 1)] = (o_, 1, Int(8, Aff(bool_byte)))
     adw = S['array_depth'][1] * 8
     if in_array is True:
         adv = st.fresh_int('c14:ARRAY_DEPTH', adw, 1, 255)
@@ -119,8 +124,8 @@ def entry_state(C, ctxkind, next_state, pstate, in_array, cbname):
     return st, args
 
 
-def traces(C, fn, ctxkind, next_state, pstate, in_array):
-    st, args = entry_state(C, ctxkind, next_state, pstate, in_array, fn.name)
+def traces(C, fn, ctxkind, next_state, pstate, in_array, bool_byte=None):
+    st, args = entry_state(C, ctxkind, next_state, pstate, in_array, fn.name, bool_byte)
     st.frames = [C._root_frame()]
     mark = len(C.hooks.log)
     outs = C.I.call_function(st, fn, args, None)
@@ -183,12 +188,13 @@ def run(rep, tier):
         # ---- RENDER: separator structure of the text for bounded documents (extracted machines composed)
         from props import c14m
         try:
+            rep.coverage['value_conversions_checked'] = c14m.format_clause(rep, mod)
             c14m.render_clause(rep, mod, tier)
         except AnalysisBroken as e:
             if not rep.violations:
                 raise
-            rep.assumptions.append('RENDER clause not evaluated on this tree: %s' % e)
-            print('NOTE C14 RENDER clause not evaluated: %s' % e)
+            rep.assumptions.append('FORMAT / RENDER clauses not evaluated on this tree: %s' % e)
+            print('NOTE C14 FORMAT / RENDER clauses not evaluated: %s' % e)
     rep.coverage.update({
         'rule': 'for each (token kind x separator state x in-array) the two callbacks, abstractly evaluated with everything else unconstrained, '
                 'emit the same sequence of (format string, argument provenance) and reach the same separator state',
